@@ -4,7 +4,7 @@
    persist_commit over the Sets produces - the inline copies never show anything else. *)
 From Coq Require Import List NArith Bool Lia.
 From OC Require Import Base.Bytes Model.Merge Model.CfgStore
-     Proofs.MergeProofs Proofs.PathProofs Proofs.CommitProofs Proofs.CommitPreserve Proofs.CommitHistory.
+     Proofs.MergeProofs Proofs.TextPathProofs Proofs.CommitProofs Proofs.CommitPreserve Proofs.CommitHistory.
 Import ListNotations.
 Open Scope N_scope.
 
